@@ -30,6 +30,30 @@ SPECS["C01"] = dict(
     outside="the real bit reader (modelled); regex verdict on BDS 2,1 (both outcomes explored); text of error/log messages; Debug rendering; float digit generation",
     assumptions=["ADS-B payload structs read from bit 0 (BDS 0,5/0,6/0,8) get the type-code range their ME dispatcher guarantees (an under-constrained struct-level analysis would report 14 - tc for tc > 14, which no caller can pass); the whole-frame harnesses re-establish that guarantee through Message::try_from"],
     harnesses=[
+        H("c01::frame_df0", tier="thorough", timeout=10800, mem_gb=5, ulimit_gb=20, bounds="whole frame through Message::try_from, first byte (and type-code byte) concrete, all other bits symbolic"),
+        H("c01::frame_df4", tier="thorough", timeout=10800, mem_gb=5, ulimit_gb=20, bounds="whole frame through Message::try_from, first byte (and type-code byte) concrete, all other bits symbolic"),
+        H("c01::frame_df5", tier="thorough", timeout=10800, mem_gb=5, ulimit_gb=20, bounds="whole frame through Message::try_from, first byte (and type-code byte) concrete, all other bits symbolic"),
+        H("c01::frame_df11", tier="thorough", timeout=10800, mem_gb=5, ulimit_gb=20, bounds="whole frame through Message::try_from, first byte (and type-code byte) concrete, all other bits symbolic"),
+        H("c01::frame_df11_ca0", tier="thorough", timeout=10800, mem_gb=5, ulimit_gb=20, bounds="whole frame through Message::try_from, first byte (and type-code byte) concrete, all other bits symbolic"),
+        H("c01::frame_df16", tier="thorough", timeout=10800, mem_gb=5, ulimit_gb=20, bounds="whole frame through Message::try_from, first byte (and type-code byte) concrete, all other bits symbolic"),
+        H("c01::frame_df19", tier="thorough", timeout=10800, mem_gb=5, ulimit_gb=20, bounds="whole frame through Message::try_from, first byte (and type-code byte) concrete, all other bits symbolic"),
+        H("c01::frame_df24", tier="thorough", timeout=10800, mem_gb=5, ulimit_gb=20, bounds="whole frame through Message::try_from, first byte (and type-code byte) concrete, all other bits symbolic"),
+        H("c01::frame_df17_tc00", tier="thorough", timeout=10800, mem_gb=5, ulimit_gb=20, bounds="whole frame through Message::try_from, first byte (and type-code byte) concrete, all other bits symbolic"),
+        H("c01::frame_df17_tc04", tier="thorough", timeout=10800, mem_gb=5, ulimit_gb=20, bounds="whole frame through Message::try_from, first byte (and type-code byte) concrete, all other bits symbolic"),
+        H("c01::frame_df17_tc07", tier="thorough", timeout=10800, mem_gb=5, ulimit_gb=20, bounds="whole frame through Message::try_from, first byte (and type-code byte) concrete, all other bits symbolic"),
+        H("c01::frame_df17_tc11", tier="thorough", timeout=10800, mem_gb=5, ulimit_gb=20, bounds="whole frame through Message::try_from, first byte (and type-code byte) concrete, all other bits symbolic"),
+        H("c01::frame_df17_tc19_st1", tier="thorough", timeout=10800, mem_gb=5, ulimit_gb=20, bounds="whole frame through Message::try_from, first byte (and type-code byte) concrete, all other bits symbolic"),
+        H("c01::frame_df17_tc19_st0", tier="thorough", timeout=10800, mem_gb=5, ulimit_gb=20, bounds="whole frame through Message::try_from, first byte (and type-code byte) concrete, all other bits symbolic"),
+        H("c01::frame_df17_tc28", tier="thorough", timeout=10800, mem_gb=5, ulimit_gb=20, bounds="whole frame through Message::try_from, first byte (and type-code byte) concrete, all other bits symbolic"),
+        H("c01::frame_df17_tc29", tier="thorough", timeout=10800, mem_gb=5, ulimit_gb=20, bounds="whole frame through Message::try_from, first byte (and type-code byte) concrete, all other bits symbolic"),
+        H("c01::frame_df17_tc31_v0", tier="thorough", timeout=10800, mem_gb=5, ulimit_gb=20, bounds="whole frame through Message::try_from, first byte (and type-code byte) concrete, all other bits symbolic"),
+        H("c01::frame_df17_tc31_r2", tier="thorough", timeout=10800, mem_gb=5, ulimit_gb=20, bounds="whole frame through Message::try_from, first byte (and type-code byte) concrete, all other bits symbolic"),
+        H("c01::frame_df17_tc23", tier="thorough", timeout=10800, mem_gb=5, ulimit_gb=20, bounds="whole frame through Message::try_from, first byte (and type-code byte) concrete, all other bits symbolic"),
+        H("c01::frame_df18_tc11", tier="thorough", timeout=10800, mem_gb=5, ulimit_gb=20, bounds="whole frame through Message::try_from, first byte (and type-code byte) concrete, all other bits symbolic"),
+        H("c01::frame_df18_tc19", tier="thorough", timeout=10800, mem_gb=5, ulimit_gb=20, bounds="whole frame through Message::try_from, first byte (and type-code byte) concrete, all other bits symbolic"),
+        H("c01::len_df11", tier="thorough", timeout=10800, mem_gb=5, ulimit_gb=20, bounds="whole frame through Message::try_from, first byte (and type-code byte) concrete, all other bits symbolic"),
+        H("c01::determinism_df11", tier="thorough", timeout=10800, mem_gb=5, ulimit_gb=20, bounds="whole frame through Message::try_from, first byte (and type-code byte) concrete, all other bits symbolic"),
+        H("c01::len_too_short", timeout=1200, mem_gb=3, bounds="any first byte, any content, any length below the prescribed one"),
         H("c01::total_bds05", timeout=900, mem_gb=3, bounds="all 2^56 payloads of BDS 0,5"),
         H("c01::total_bds06", timeout=900, mem_gb=3, bounds="all 2^56 payloads of BDS 0,6"),
         H("c01::total_bds08", timeout=900, mem_gb=3, bounds="all 2^56 payloads of BDS 0,8"),
@@ -93,6 +117,27 @@ SPECS["C02"] = dict(
         H("c02::ap_df16", tier="thorough", timeout=7200, mem_gb=4, bounds="byte0 = 0x80; 80 symbolic payload bits"),
         H("c02::ap_df20", tier="thorough", timeout=7200, mem_gb=4, bounds="byte0 = 0xa0; MB = 0; 24 symbolic header bits"),
         H("c02::ap_df21", tier="thorough", timeout=7200, mem_gb=4, bounds="byte0 = 0xa8; MB = 0"),
+    ],
+)
+
+SPECS["C03"] = dict(
+    feature="c03",
+    functions=["field readers of rs1090::decode::bds::{bds05,bds06,bds08,bds09,bds20,bds40,bds50,bds60,bds62}", "rs1090::decode::ICAO reader", "callsign_read / CHAR_LOOKUP", "read_groundspeed (BDS 0,6 movement)"],
+    trusted_base=[KANI, DEKU, FMT, TRACING, "libm::atan2 / hypot replaced by contract stubs WITH GHOST STATE (arguments and results recorded): argument order, signs, scale and wrap of BDS 0,9 track/speed are inside the check, only libm's numerical quality is trusted"],
+    bounds="all 2^56 payloads per type: every code of every field at once (not the <= 2^22 sweep the property text settles for); unwind 17",
+    outside="altitude and squawk values (decided exhaustively under C13); DF20 'BDS05 only if alt == AC' gate and the position of AA in the frame (whole-frame harnesses, thorough tier of C01); Comm-B registers are compared only when the register's plausibility filters accept the payload; sentinel 'not available' codes",
+    assumptions=["oracle: field positions and scale factors written from DO-260B / Annex 10 vol. IV in harness/src/c03.rs (bit numbers are the standard's 1-based ME bit numbers)"],
+    harnesses=[
+        H("c03::callsign_bds08", tier="thorough", timeout=3600, mem_gb=12, ulimit_gb=30, bounds="all 2^56 payloads (every code of every field simultaneously)"),
+        H("c03::callsign_bds20", tier="thorough", timeout=3600, mem_gb=12, ulimit_gb=30, bounds="all 2^56 payloads (every code of every field simultaneously)"),
+        H("c03::bds09_fields", tier="quick", timeout=1800, mem_gb=5, ulimit_gb=None, bounds="all 2^56 payloads (every code of every field simultaneously)"),
+        H("c03::bds06_fields", tier="quick", timeout=900, mem_gb=3, ulimit_gb=None, bounds="all 2^56 payloads (every code of every field simultaneously)"),
+        H("c03::bds05_fields", tier="quick", timeout=900, mem_gb=3, ulimit_gb=None, bounds="all 2^56 payloads (every code of every field simultaneously)"),
+        H("c03::bds62_fields", tier="quick", timeout=1200, mem_gb=4, ulimit_gb=None, bounds="all 2^56 payloads (every code of every field simultaneously)"),
+        H("c03::bds40_fields", tier="quick", timeout=1200, mem_gb=4, ulimit_gb=None, bounds="all 2^56 payloads (every code of every field simultaneously)"),
+        H("c03::bds50_fields", tier="quick", timeout=1200, mem_gb=4, ulimit_gb=None, bounds="all 2^56 payloads (every code of every field simultaneously)"),
+        H("c03::bds60_fields", tier="quick", timeout=1200, mem_gb=4, ulimit_gb=None, bounds="all 2^56 payloads (every code of every field simultaneously)"),
+        H("c03::icao_field", tier="quick", timeout=300, mem_gb=2, ulimit_gb=None, bounds="all 2^56 payloads (every code of every field simultaneously)"),
     ],
 )
 
